@@ -133,6 +133,17 @@ claim('C19',
       'TLA+ file-system ownership model + syscall trace validation', 'DESIGN.md section 4 C19')
 
 
+claim('C20',
+      'Sanitize.tla states which embeddings of a path the sanitiser recognises (sound for words starting '
+      'with the path, blind otherwise) and the source -> log -> sink flow; the word alphabet with predicted '
+      'outcomes is replayed into sanitize_paths; the assumption that sources never emit a resolvable path in '
+      'an unrecognised shape is validated on real cloud-safe runs (success and every failure class incl. '
+      'injected worker failures) under several directory layouts by an independent scanner of all sinks.',
+      'Trusted: TLC, scanner leaks_in (os.path.exists on token prefixes).',
+      'TLA+ model of the sanitiser replayed into the code + scan of real run outputs',
+      'DESIGN.md section 4 C20')
+
+
 def build():
     props = [json.loads(l) for l in open(ROOT / 'properties.jsonl')]
     checks = []
